@@ -18,6 +18,11 @@ import (
 )
 
 // ---- schedule points: the three converter loops announce every Pop (build tag verif) ----
+//
+// The hook carries no instance id, so a call is attributed to the run in whose generation its
+// goroutine was first seen.  Two things keep that attribution exact: (a) a run ends with a barrier
+// that waits until its worker goroutines have left (quiesce), (b) a run in which more than one
+// goroutine showed up at the same point is contaminated by a straggler and is repeated.
 
 var (
 	hookOnce                sync.Once
@@ -25,7 +30,19 @@ var (
 	hookMu                  sync.Mutex
 	hookGen                 int64               // generation = one harness run of a pipeline / demuxer
 	hookGoroutine           = map[int64]int64{} // goroutine id → generation in which it was first seen
+	genSeen                 = map[string]int{}  // point → number of distinct goroutines first seen in this generation
+	genContaminated         bool
 )
+
+// HangBudget is how long the harness waits for an event of the implementation (a converter
+// goroutine reaching its next schedule point, a synchronous call returning) before it calls the
+// state a hang.  It costs nothing when the event arrives; it is deliberately far beyond anything a
+// loaded machine can delay a runnable goroutine.  A hang is reported once, then Stopped is set and
+// the runners stop generating: the hung goroutine cannot be killed.
+var HangBudget = 300 * time.Second
+
+// Stopped is set after a confirmed hang
+var Stopped bool
 
 func goid() int64 {
 	var buf [64]byte
@@ -47,7 +64,15 @@ func newGeneration() {
 	atomic.StoreInt64(&cntDemux, 0)
 	atomic.StoreInt64(&cntFlv, 0)
 	atomic.StoreInt64(&cntTs, 0)
+	genSeen = map[string]int{}
+	genContaminated = false
 	hookMu.Unlock()
+}
+
+func contaminated() bool {
+	hookMu.Lock()
+	defer hookMu.Unlock()
+	return genContaminated
 }
 
 func installHooks() {
@@ -73,6 +98,10 @@ func installHooks() {
 				if len(hookGoroutine) > 100000 {
 					hookGoroutine = map[int64]int64{g: gen}
 				}
+				genSeen[point]++
+				if genSeen[point] > 1 {
+					genContaminated = true
+				}
 			}
 			cur := hookGen
 			hookMu.Unlock()
@@ -84,10 +113,28 @@ func installHooks() {
 	newGeneration()
 }
 
+// quiesce waits (bounded, never a verdict) until the goroutines started since `base` was sampled
+// have left, so that none of them is first seen by the hook in a later generation.
+func quiesce(base int) {
+	deadline := time.Now().Add(10 * time.Second)
+	for i := 0; runtime.NumGoroutine() > base; i++ {
+		if time.Now().After(deadline) {
+			return
+		}
+		if i < 50 {
+			runtime.Gosched()
+		} else if i < 400 {
+			time.Sleep(20 * time.Microsecond)
+		} else {
+			time.Sleep(time.Millisecond)
+		}
+	}
+}
+
 // waitFor waits until the counter reached want or the worker logged its panic.
-// ok=false, dead=false only after a very generous timeout (hung).
+// ok=false, dead=false only after HangBudget without either (hung).
 func waitFor(cnt *int64, want int64, lg *LogCapture) (ok, dead bool) {
-	deadline := time.Now().Add(60 * time.Second)
+	deadline := time.Now().Add(HangBudget)
 	for i := 0; ; i++ {
 		if atomic.LoadInt64(cnt) >= want {
 			return true, false
@@ -96,6 +143,14 @@ func waitFor(cnt *int64, want int64, lg *LogCapture) (ok, dead bool) {
 			return false, true
 		}
 		if time.Now().After(deadline) {
+			// last look: the event may have arrived while this goroutine was not scheduled
+			if atomic.LoadInt64(cnt) >= want {
+				return true, false
+			}
+			if lg.Panicked() != "" {
+				return false, true
+			}
+			Stopped = true
 			return false, false
 		}
 		if i < 200 {
@@ -103,6 +158,31 @@ func waitFor(cnt *int64, want int64, lg *LogCapture) (ok, dead bool) {
 		} else {
 			time.Sleep(time.Millisecond)
 		}
+	}
+}
+
+// Guard runs f (a blocking call into the implementation; f recovers its own panics) on its own
+// goroutine and waits for it.  ok=false: f did not return within HangBudget — a hang, reported by
+// the caller with the case as replay; the goroutine is abandoned and Stopped is set.
+func Guard(f func()) (ok bool) {
+	done := make(chan struct{})
+	go func() {
+		defer close(done)
+		f()
+	}()
+	t := time.NewTimer(HangBudget)
+	defer t.Stop()
+	select {
+	case <-done:
+		return true
+	case <-t.C:
+		select {
+		case <-done:
+			return true
+		default:
+		}
+		Stopped = true
+		return false
 	}
 }
 
@@ -211,7 +291,8 @@ type PipeOut struct {
 	HasTs   bool
 	FPanic  string
 	TPanic  string
-	Stopped int // index (in arrival order) after which stepping stopped because a worker hung
+	Stopped int    // index (in arrival order) after which stepping stopped because a worker hung
+	HungAt  string // which worker
 }
 
 // AscOk mirrors mpegts aacPacketizer.prepareAsc: does the AudioSpecificConfig decode to a usable object type?
@@ -232,8 +313,22 @@ func AscOk(cfgBytes []byte) (ok bool) {
 // real flv.Muxer and (H.264 + AAC) a real mpegts.Muxer, stepping the three goroutines in lock
 // step through their schedule points.  asc = the AAC config of the SDP (nil: none).
 func RunPipeline(c *Case, pkts []WPkt, order []int, asc []byte) PipeOut {
+	for try := 0; ; try++ {
+		out, dirty := runPipelineOnce(c, pkts, order, asc)
+		if !dirty || out.Hung {
+			return out
+		}
+		if try >= 3 {
+			out.Skipped = "contaminated:a goroutine of an earlier run passed a schedule point during this run"
+			return out
+		}
+	}
+}
+
+func runPipelineOnce(c *Case, pkts []WPkt, order []int, asc []byte) (out PipeOut, dirty bool) {
+	base := runtime.NumGoroutine()
 	installHooks()
-	out := PipeOut{FAlive: true, TAlive: true}
+	out = PipeOut{FAlive: true, TAlive: true}
 	out.Alive = true
 	vm, am := c.metas()
 	am.Sps = asc
@@ -241,17 +336,26 @@ func RunPipeline(c *Case, pkts []WPkt, order []int, asc []byte) PipeOut {
 	lgD, lgF, lgT := NewLogCapture(), NewLogCapture(), NewLogCapture()
 	tags, tsf := &tagRec{}, &tsRec{}
 	sp := &splitter{rec: rec}
-	d0, f0, t0 := atomic.LoadInt64(&cntDemux), atomic.LoadInt64(&cntFlv), atomic.LoadInt64(&cntTs)
+	var closers []func() error
+	defer func() {
+		for _, cl := range closers {
+			cl()
+		}
+		if !out.Hung {
+			quiesce(base)
+		}
+		dirty = contaminated()
+	}()
 	var err error
 	if sp.fl, err = flv.NewMuxer(vm, am, tags, lgF.Logger()); err != nil {
 		out.Skipped = "newflvmuxer:" + err.Error()
-		return out
+		return
 	}
-	defer sp.fl.Close()
+	closers = append(closers, sp.fl.Close)
 	if c.Codec == "h264" && c.Aac {
 		if sp.ts, err = mpegts.NewMuxer(vm, am, tsf, lgT.Logger()); err == nil {
 			out.HasTs = true
-			defer sp.ts.Close()
+			closers = append(closers, sp.ts.Close)
 		} else {
 			sp.ts = nil
 		}
@@ -259,9 +363,36 @@ func RunPipeline(c *Case, pkts []WPkt, order []int, asc []byte) PipeOut {
 	dm, err := rtp.NewDemuxer(vm, am, sp, lgD.Logger())
 	if err != nil {
 		out.Skipped = "newdemuxer:" + err.Error()
-		return out
+		return
 	}
-	defer dm.Close()
+	closers = append(closers, dm.Close)
+	// every worker registers at its first schedule point before anything is pushed
+	hang := func(k int, which string) {
+		out.Hung, out.Stopped, out.HungAt = true, k, which
+	}
+	if ok, dead := waitFor(&cntFlv, 1, lgF); dead {
+		out.FAlive, out.FPanic = false, lgF.Panicked()
+	} else if !ok {
+		out.FAlive = false
+		hang(-1, "flv-muxer")
+		return
+	}
+	if out.HasTs {
+		if ok, dead := waitFor(&cntTs, 1, lgT); dead {
+			out.TAlive, out.TPanic = false, lgT.Panicked()
+		} else if !ok {
+			out.TAlive = false
+			hang(-1, "ts-muxer")
+			return
+		}
+	}
+	if ok, dead := waitFor(&cntDemux, 1, lgD); dead {
+		out.Alive, out.Panic = false, lgD.Panicked()
+	} else if !ok {
+		out.Alive = false
+		hang(-1, "demuxer")
+		return
+	}
 	pushed := int64(0)
 	for k, i := range order {
 		if i < 0 || i >= len(pkts) {
@@ -278,30 +409,33 @@ func RunPipeline(c *Case, pkts []WPkt, order []int, asc []byte) PipeOut {
 		}
 		dm.WriteRtpPacket(p)
 		pushed++
-		ok, dead := waitFor(&cntDemux, d0+pushed+1, lgD)
+		ok, dead := waitFor(&cntDemux, pushed+1, lgD)
 		if dead {
 			out.Alive, out.Panic = false, lgD.Panicked()
 		} else if !ok {
-			out.Hung, out.Alive, out.Stopped = true, false, k
+			out.Alive = false
+			hang(k, "demuxer")
 			break
 		}
 		// let the muxers consume the frames of this packet
 		n := atomic.LoadInt64(&sp.pushed)
 		if out.FAlive {
-			ok, dead := waitFor(&cntFlv, f0+n+1, lgF)
+			ok, dead := waitFor(&cntFlv, n+1, lgF)
 			if dead {
 				out.FAlive, out.FPanic = false, lgF.Panicked()
 			} else if !ok {
-				out.Hung, out.FAlive, out.Stopped = true, false, k
+				out.FAlive = false
+				hang(k, "flv-muxer")
 				break
 			}
 		}
 		if out.HasTs && out.TAlive {
-			ok, dead := waitFor(&cntTs, t0+n+1, lgT)
+			ok, dead := waitFor(&cntTs, n+1, lgT)
 			if dead {
 				out.TAlive, out.TPanic = false, lgT.Panicked()
 			} else if !ok {
-				out.Hung, out.TAlive, out.Stopped = true, false, k
+				out.TAlive = false
+				hang(k, "ts-muxer")
 				break
 			}
 		}
@@ -314,5 +448,5 @@ func RunPipeline(c *Case, pkts []WPkt, order []int, asc []byte) PipeOut {
 	out.Tsf = append([]string(nil), tsf.frames...)
 	tsf.mu.Unlock()
 	out.Sps, out.Pps, out.Vps = vm.Sps, vm.Pps, vm.Vps
-	return out
+	return
 }
